@@ -38,6 +38,7 @@ type Data struct {
 	Users   []*User
 	Devices []*Device
 	Admins  []*Admin
+	Picked  int // how often the pickUser mutation ran
 }
 
 func DataSets() []*Data {
@@ -151,7 +152,13 @@ func Build(d *Data, a Assignment, service string) *schemabuilder.Schema {
 		admin.Key("id")
 	}
 	q := s.Query()
-	s.Mutation()
+	m := s.Mutation()
+	if has("user") { // the mutation lives on the service that serves the `user` root
+		m.FieldFunc("pickUser", func(args struct{ Id int64 }) *User {
+			d.Picked++
+			return d.user(args.Id)
+		})
+	}
 	if has("users") {
 		q.FieldFunc("users", func(ctx context.Context) ([]*User, error) { return d.Users, nil })
 	}
